@@ -122,7 +122,7 @@ Lemma tok_loop_total : forall fuel fid st, length (ts_suf st) < fuel ->
 Proof.
   induction fuel as [|f IH]; intros fid st Hlen; [lia|].
   destruct (ts_suf st) as [|c r] eqn:Hs.
-  - left. exists (rev (ts_toks st)). destruct f; simpl; rewrite Hs; reflexivity.
+  - left. exists (frev (ts_toks st)). destruct f; simpl; rewrite Hs; reflexivity.
   - cbn [tok_loop]. rewrite Hs.
     destruct (one_token_progress fid st c r Hs) as [[e He] | (st' & He & Hl)]; rewrite He.
     + right; eauto.
